@@ -400,6 +400,8 @@ func init() {
 		b := s.uf("bytes2str", SInt, Select(h, args[1].L[0]), args[1].L[1], args[1].L[2])
 		r := s.uf("keycmp", SInt, a, b)
 		s.assume(And(Le(I(-1), r), Le(r, I(1)), Eq(Eq(r, I(0)), Eq(a, b)), Eq(s.uf("keycmp", SInt, b, a), Neg(r))))
+		ka, kb := s.uf("keyord", "Real", a), s.uf("keyord", "Real", b)
+		s.assume(And(Eq(Lt(r, I(0)), Lt(ka, kb)), Eq(Gt(r, I(0)), Gt(ka, kb))))
 		return scalar(types.Typ[types.Int], r)
 	}
 	builtinModels["bytes.Equal"] = func(s *Session, fr *Frame, fn *ssa.Function, args []Val, st *State) Val {
@@ -408,7 +410,8 @@ func init() {
 		b := s.uf("bytes2str", SInt, Select(h, args[1].L[0]), args[1].L[1], args[1].L[2])
 		// equal contents <=> equal denoted strings; different lengths are never equal
 		r := s.fresh("byteseq", SBool)
-		s.assume(Imp(r, And(Eq(a, b), Eq(args[0].L[2], args[1].L[2]))))
+		s.assume(Eq(r, Eq(a, b)))
+		s.assume(Imp(r, Eq(args[0].L[2], args[1].L[2])))
 		s.assume(Imp(And(Eq(args[0].L[2], I(0)), Eq(args[1].L[2], I(0))), r))
 		return scalar(types.Typ[types.Bool], r)
 	}
@@ -453,8 +456,34 @@ func (s *Session) lockOp(fr *Frame, name string, args []Val, st *State) Val {
 		id := args[0].Loc.Kind + ":" + args[0].Loc.TypeKey + ":" + args[0].Loc.Path
 		switch {
 		case strings.HasSuffix(name, ".Lock") || strings.HasSuffix(name, ".RLock"):
-			st.Locks[id] = true
-		case strings.HasSuffix(name, ".Unlock") || strings.HasSuffix(name, ".RUnlock"):
+			if !st.Locks[id] && !st.Locks[id+":r"] && fr.contract != nil {
+				for _, al := range fr.contract.AtLocks {
+					se := &SpecEnv{sess: s, pkg: fr.fn.Pkg.Pkg, vars: s.frameEnv(fr), st: st, old: fr.old, fr: fr}
+					e, err := parseSpec(al.Lock)
+					if err != nil {
+						continue
+					}
+					loc, err2 := s.evalAddr(se, e)
+					if err2 != nil || loc.Kind+":"+loc.TypeKey+":"+loc.Path != id {
+						continue
+					}
+					before := st.clone()
+					s.havocItems(se, al.Items, st)
+					if al.Pred != nil {
+						se2 := &SpecEnv{sess: s, pkg: fr.fn.Pkg.Pkg, vars: s.frameEnv(fr), st: st, old: before, fr: fr}
+						s.assume(Imp(st.Reach, s.evalBool(se2, al.Pred.E)))
+					}
+					s.note("%s: at the acquisition of %s the locations {%s} are forgotten (other threads may have changed them while the lock was not held)", fr.fn.String(), al.Lock, strings.Join(al.Items, ", "))
+				}
+			}
+			if strings.HasSuffix(name, ".RLock") {
+				st.Locks[id+":r"] = true // shared: excludes writers only
+			} else {
+				st.Locks[id] = true
+			}
+		case strings.HasSuffix(name, ".RUnlock"):
+			delete(st.Locks, id+":r")
+		case strings.HasSuffix(name, ".Unlock"):
 			delete(st.Locks, id)
 		}
 	}
